@@ -253,7 +253,8 @@ def _raise(run, P):
     site = f.node
     for n in f.node.body:
         if isinstance(n, ast.If) and dotted(n.test) == errs and n.body \
-                and has(f"raise CodeGenerationError({errs})", n.body[0]) and not n.orelse:
+                and any(has(f"raise CodeGenerationError({errs})", s_) for s_ in n.body) \
+                and isinstance(n.body[-1], ast.Raise) and not n.orelse:
             ok = True
             site = n
     run.ob("C10.raise", f, site, ok,
@@ -302,10 +303,11 @@ def _cycle(run, P):
            why="a cycle that is not reachable from the start set (a detached cycle, "
                "a phase that is one big cycle) is never visited")
     top_n, env = first(f"V_top = {stack}[-1]", lp)
-    if top_n is None or not (len(lp.body) >= 2 and isinstance(lp.body[-1], ast.If)):
+    branches = [s_ for s_ in lp.body if isinstance(s_, ast.If)] if top_n is not None else []
+    if not branches:
         raise AnalysisError("verify_no_circular_dependencies: expand/finish branch not found")
     top = env["V_top"]
-    br = lp.body[-1]
+    br = branches[-1]
     m1 = first(f"{top}.id not in V_visited", br.test)
     m2 = first(f"{top}.id in V_visited", br.test)
     if m1[0] is not None:
@@ -332,11 +334,13 @@ def _cycle(run, P):
         el = eloops[0]
         v = el.target.id
         body = el.body
-        if len(body) >= 2 and isinstance(body[0], ast.If) \
-                and ast.unparse(body[0].test) == f"{v} in {visiting}" \
-                and any(isinstance(s_, ast.Return) for s_ in body[0].body) \
-                and any(has(f"{errs}.append(ANY)", s_) for s_ in body[0].body) \
-                and has(f"{stack}.append(V_tbl[{v}])", body[-1]):
+        tests_ = [i for i, s_ in enumerate(body) if isinstance(s_, ast.If)
+                  and ast.unparse(s_.test) == f"{v} in {visiting}"
+                  and isinstance(s_.body[-1], ast.Return)
+                  and any(has(f"{errs}.append(ANY)", x_) for x_ in s_.body)]
+        pushes = [i for i, s_ in enumerate(body) if has(f"{stack}.append(V_tbl[{v}])", s_)
+                  and not isinstance(s_, ast.If)]
+        if tests_ and pushes and tests_[0] < min(pushes):
             ok = True
     run.ob("C10.cycle", f, eloops[0] if eloops else expand[0], ok,
            construct="for every dependency: 'in visiting' -> report and return, else push",
@@ -347,8 +351,10 @@ def _cycle(run, P):
     run.ob("C10.cycle", f, finish[0] if finish else br, ok,
            construct="finished node leaves 'visiting'",
            why="a finished node left in 'visiting' reports a false cycle on a diamond")
-    last = finish[-1] if finish else None
-    ok = last is not None and ast.unparse(last) == f"{stack}.pop()"
+    pops_ = [s_ for s_ in finish if ast.unparse(s_) == f"{stack}.pop()"]
+    last = pops_[-1] if pops_ else (finish[-1] if finish else None)
+    ok = bool(pops_) and not any(isinstance(x, (ast.Continue, ast.Break, ast.Return, ast.Raise))
+                                 for s_ in finish for x in ast.walk(s_))
     run.ob("C10.cycle", f, last if last is not None else br, ok,
            construct="finished branch ends with an unconditional <stack>.pop()",
            why="termination: every iteration marks a new node or pops")
@@ -434,7 +440,7 @@ def _switch(run, P):
             src = [ast.unparse(s) for s in il.body]
             skip_ok = any(isinstance(s, ast.If) and
                           ast.unparse(s.test) == f"not isinstance({iv}, SwitchPhase)"
-                          and isinstance(s.body[0], ast.Continue) for s in il.body) \
+                          and isinstance(s.body[-1], ast.Continue) for s in il.body) \
                 or any(isinstance(s, ast.If) and
                        ast.unparse(s.test).startswith(f"isinstance({iv}, SwitchPhase)")
                        for s in il.body)
